@@ -96,7 +96,25 @@ func genText(t *rapid.T, label string, maxLen int, specials ...int) []byte {
 		} else {
 			n = genSize(t, label+".len", room, sp...)
 		}
-		switch weighted(t, label+".kind", 3, 3, 3, 2, 3, 1) {
+		switch weighted(t, label+".kind", 3, 3, 3, 2, 3, 1, 3) {
+		case 6: // uniform over 2..16 letters, expanded from one drawn seed
+			// (rapid's own small integers favour the low values, so the
+			// stretches of kind 1 are far from uniform: they are full of
+			// matches; these have few, at unpredictable places)
+			k := rapid.SampledFrom([]int{2, 3, 4, 8, 16}).Draw(t, label+".uk")
+			x := rapid.Uint64().Draw(t, label+".useed")
+			for i := 0; i < n; i++ {
+				x += 0x9e3779b97f4a7c15
+				z := x
+				z = (z ^ (z >> 30)) * 0xbf58476d1ce4e5b9
+				z = (z ^ (z >> 27)) * 0x94d049bb133111eb
+				v := int((z ^ (z >> 31)) >> 33 % uint64(k))
+				if v < len(alpha) {
+					out = append(out, alpha[v])
+				} else {
+					out = append(out, byte('k'+v))
+				}
+			}
 		case 0: // run
 			c := alpha[rapid.IntRange(0, len(alpha)-1).Draw(t, label+".c")]
 			for i := 0; i < n; i++ {
